@@ -359,9 +359,99 @@ impl BCaseSpec {
     }
 }
 
+// ---------------------------------------------------------------------------------------------------------------
+// part B on an enum host: vars / quick return around the generated `match`
+
+#[derive(Clone, Debug)]
+pub struct ECaseSpec {
+    /// per direction group (from, into): (vars, quick return)
+    pub groups: [(bool, bool); 2],
+    pub named: bool,
+    pub tags: Vec<String>,
+}
+
+pub fn gen_e(ctx: &mut Ctx) -> Option<ECaseSpec> {
+    let mut groups = [(false, false); 2];
+    for g in 0..2 {
+        groups[g] = (ctx.flag(), ctx.flag());
+    }
+    if groups.iter().all(|g| !g.0 && !g.1) {
+        return ctx.reject();
+    }
+    let named = ctx.flag();
+    let tags = vec!["host=enum".to_string(), format!("from={:?}", groups[0]), format!("into={:?}", groups[1]), format!("named={}", named)];
+    Some(ECaseSpec { groups, named, tags })
+}
+
+impl ECaseSpec {
+    fn params(&self, g: usize, cp: &str) -> String {
+        let (vars, ret) = self.groups[g];
+        let mut ps: Vec<String> = vec![];
+        if vars {
+            ps.push("vars(v1: { logv(1, 5) }, v2: { logv(2, v1 + 1) })".into());
+        }
+        if ret {
+            let v = if g == 0 { "S::B".to_string() } else { format!("{}::B", cp) };
+            ps.push(if cp == "Tf" { format!("return Ok({})", v) } else { format!("return {}", v) });
+        }
+        if ps.is_empty() { String::new() } else { format!("| {}", ps.join(", ")) }
+    }
+    pub fn item_text(&self) -> String {
+        let mut o = String::new();
+        for (cp, t, e) in [("T", "", ""), ("Tf", "try_", ", Er")] {
+            let _ = writeln!(o, "#[{t}from({cp}{e}{})]", self.params(0, cp));
+            let _ = writeln!(o, "#[{t}into({cp}{e}{})]", self.params(1, cp));
+        }
+        let mut a_attrs = vec![];
+        a_attrs.push(if self.groups[0].0 { "#[from(logv(11, ~.clone() + v1 + v2))]".to_string() } else { "#[from(~.clone())]".to_string() });
+        a_attrs.push(if self.groups[1].0 { "#[into(logv(12, ~.clone() + v1 + v2))]".to_string() } else { "#[into(~.clone())]".to_string() });
+        if self.named {
+            let _ = writeln!(o, "enum S {{ A {{ {} x: i32 }}, B }}", a_attrs.join(" "));
+        } else {
+            let _ = writeln!(o, "enum S {{ A({} i32), B }}", a_attrs.join(" "));
+        }
+        o
+    }
+    pub fn render_module(&self) -> String {
+        let mut o = String::from("#![allow(unused, non_camel_case_types, clippy::all)]\nuse crate::common::*;\n");
+        let d = "#[derive(Clone, Debug, PartialEq)]";
+        let body = if self.named { "A { x: i32 }, B" } else { "A(i32), B" };
+        let _ = writeln!(o, "{d} pub enum T {{ {body} }}\n{d} pub enum Tf {{ {body} }}");
+        let _ = writeln!(o, "{d}\n#[derive(o2o::o2o)]\n{}", self.item_text().replace("enum S", "pub enum S"));
+        let mk = |ty: &str, v: i64| if self.named { format!("{}::A {{ x: {} }}", ty, v) } else { format!("{}::A({})", ty, v) };
+        let _ = writeln!(o, "pub fn run(r: &mut Rec) {{");
+        for (cp, fallible) in [("T", false), ("Tf", true)] {
+            let t = if fallible { "try_" } else { "" };
+            let wrap = |e: String| if fallible { format!("Ok::<_, Er>({})", e) } else { e };
+            {
+                let (vars, ret) = self.groups[0];
+                let (exp, log): (String, Vec<i64>) = if ret { ("S::B".into(), if vars { vec![1, 2] } else { vec![] }) } else { (mk("S", if vars { 10 + 5 + 6 } else { 10 }), if vars { vec![1, 2, 11] } else { vec![] }) };
+                let tv = mk(cp, 10);
+                for (lbl, call) in [("from_owned", if fallible { format!("<S as TryFrom<{cp}>>::try_from(t.clone())") } else { format!("<S as From<{cp}>>::from(t.clone())") }), ("from_ref", if fallible { format!("<S as TryFrom<&{cp}>>::try_from(&t)") } else { format!("<S as From<&{cp}>>::from(&t)") })] {
+                    let _ = writeln!(o, "  {{ let t = {tv}; take_log(); let got = {call}; r.eq(\"{t}{lbl}/value\", &got, &{}); r.eq(\"{t}{lbl}/vars-log\", &take_log(), &vec!{:?}); }}", wrap(exp.clone()), log);
+                }
+                // the unit variant: vars are still evaluated (before the match), no member expression runs
+                let logb: Vec<i64> = if vars { vec![1, 2] } else { vec![] };
+                let call = if fallible { format!("<S as TryFrom<{cp}>>::try_from({cp}::B)") } else { format!("<S as From<{cp}>>::from({cp}::B)") };
+                let _ = writeln!(o, "  {{ take_log(); let got = {call}; r.eq(\"{t}from_owned/unit-variant\", &got, &{}); r.eq(\"{t}from_owned/unit-variant-log\", &take_log(), &vec!{:?}); }}", wrap("S::B".into()), logb);
+            }
+            {
+                let (vars, ret) = self.groups[1];
+                let (exp, log): (String, Vec<i64>) = if ret { (format!("{}::B", cp), if vars { vec![1, 2] } else { vec![] }) } else { (mk(cp, if vars { 1 + 5 + 6 } else { 1 }), if vars { vec![1, 2, 12] } else { vec![] }) };
+                let sv = mk("S", 1);
+                for (lbl, call) in [("owned_into", if fallible { format!("<S as TryInto<{cp}>>::try_into(s.clone())") } else { format!("<S as Into<{cp}>>::into(s.clone())") }), ("ref_into", if fallible { format!("<&S as TryInto<{cp}>>::try_into(&s)") } else { format!("<&S as Into<{cp}>>::into(&s)") })] {
+                    let _ = writeln!(o, "  {{ let s = {sv}; take_log(); let got = {call}; r.eq(\"{t}{lbl}/value\", &got, &{}); r.eq(\"{t}{lbl}/vars-log\", &take_log(), &vec!{:?}); }}", wrap(exp.clone()), log);
+                }
+            }
+        }
+        o.push_str("}\n");
+        o.replace("&vec![]", "&Vec::<i64>::new()")
+    }
+}
+
 pub fn run(tier: &str) -> i32 {
     let rep = Report::new("C08", tier, "model_checking");
-    rep.set_rule("part A (placement, structural): each of the 24 trait-instruction names x {named struct, enum with ghosts, struct with bare parent + ghosts} x every subset of {attribute, impl_attribute, inner_attribute, vars} in EVERY order x terminal {none, ..update, return} + a parameterless instruction for a second counterpart: in every impl the instruction produces (M_appl) the attribute is an outer attribute of the fn, the impl_attribute of the impl, the inner_attribute an inner attribute at the head of the fn body, each exactly once and nowhere else; impls of the other instruction carry none. Part B (behaviour through rustc + execution): per direction group {from, into, into_existing} x {vars or not} x {none, ..update, return} x {bare #[parent] member or not}, all 12 kinds: vars expressions call a logging helper - the log must be [v1, v2, member expression] (each once, in declaration order, vars first) and member expressions read v1, v2; ..base() supplies exactly the leaves no member provides; return make(M) is the whole result (*other == make(M) for into_existing). states = distinct inputs / test modules");
+    rep.set_rule("part A (placement, structural): each of the 24 trait-instruction names x {named struct, enum with ghosts, struct with bare parent + ghosts} x every subset of {attribute, impl_attribute, inner_attribute, vars} in EVERY order x terminal {none, ..update, return} + a parameterless instruction for a second counterpart: in every impl the instruction produces (M_appl) the attribute is an outer attribute of the fn, the impl_attribute of the impl, the inner_attribute an inner attribute at the head of the fn body, each exactly once and nowhere else; impls of the other instruction carry none. Part B (behaviour through rustc + execution): per direction group {from, into, into_existing} x {vars or not} x {none, ..update, return} x {bare #[parent] member or not}, all 12 kinds: vars expressions call a logging helper - the log must be [v1, v2, member expression] (each once, in declaration order, vars first) and member expressions read v1, v2; ..base() supplies exactly the leaves no member provides; return make(M) is the whole result (*other == make(M) for into_existing); the same for an enum host (tuple / named variant): vars are evaluated once before the generated match - also when the unit variant is converted -, quick return replaces the match. states = distinct inputs / test modules");
     rep.assume("the statement's `on every impl the instruction produces` is read with M_appl; bare #[parent] is combined with vars only (its combination with ..update / return is KF-C17-01)");
     let caps = Caps::from_env(if tier == "quick" { 200.0 } else { 1200.0 });
     run_space(&Placement, None, &caps, &rep);
@@ -370,6 +460,10 @@ pub fn run(tier: &str) -> i32 {
         items.lock().unwrap().push(BItem { space: "behaviour".into(), choices: ch.to_vec(), tags: c.tags.clone(), inputs: vec![c.item_text()], module: c.render_module(), nontrivial: true });
     });
     rep.add_stats("behaviour", "full", &st);
+    let st = explore(gen_e, None, &caps, |ch, c| {
+        items.lock().unwrap().push(BItem { space: "behaviour-enum".into(), choices: ch.to_vec(), tags: c.tags.clone(), inputs: vec![c.item_text()], module: c.render_module(), nontrivial: true });
+    });
+    rep.add_stats("behaviour-enum", "full", &st);
     if let Err(e) = run_items("C08", items.into_inner().unwrap(), &rep, BOpts { no_std: false, features: "", name: "c08".into(), keep: std::env::var("VERIF_KEEP").is_ok() }) {
         eprintln!("MACHINERY-ERROR: {}", e);
         return 2;
@@ -383,16 +477,24 @@ pub fn replay(f: &Failure) -> i32 {
     }
     let mut obs = vec![];
     for round in 0..2 {
-        let (c, full) = replay_one(gen_b, &f.choices);
-        let c = match c {
-            Some(c) if full == f.choices && c.item_text() == f.input => c,
-            _ => {
-                eprintln!("MACHINERY-ERROR: cannot re-render {:?}", f.choices);
-                return 2;
+        let item = if f.space == "behaviour-enum" {
+            match replay_one(gen_e, &f.choices) {
+                (Some(c), full) if full == f.choices && c.item_text() == f.input => BItem { space: f.space.clone(), choices: full, tags: c.tags.clone(), inputs: vec![c.item_text()], module: c.render_module(), nontrivial: true },
+                _ => {
+                    eprintln!("MACHINERY-ERROR: cannot re-render {:?}", f.choices);
+                    return 2;
+                }
+            }
+        } else {
+            match replay_one(gen_b, &f.choices) {
+                (Some(c), full) if full == f.choices && c.item_text() == f.input => BItem { space: "behaviour".into(), choices: full, tags: c.tags.clone(), inputs: vec![c.item_text()], module: c.render_module(), nontrivial: true },
+                _ => {
+                    eprintln!("MACHINERY-ERROR: cannot re-render {:?}", f.choices);
+                    return 2;
+                }
             }
         };
         let rep = Report::new("C08", "quick", "model_checking");
-        let item = BItem { space: "behaviour".into(), choices: full, tags: c.tags.clone(), inputs: vec![c.item_text()], module: c.render_module(), nontrivial: true };
         if let Err(e) = run_items("C08", vec![item], &rep, BOpts { no_std: false, features: "", name: format!("c08-replay{}", round), keep: false }) {
             eprintln!("MACHINERY-ERROR: {}", e);
             return 2;
